@@ -64,7 +64,8 @@ void nodeFiles(const std::string& dir, const Json::Value& node) {
     std::string v = it->asString();
     ::setxattr(dir.c_str(), it.key().asString().c_str(), v.data(), v.size(), 0);
   }
-  if (node.isMember("procs") && !node["procs"].isNull()) {
+  bool noProcs = files.isMember("cgroup.procs") && files["cgroup.procs"].isNull();
+  if (!noProcs && node.isMember("procs") && !node["procs"].isNull()) {
     std::string c;
     for (auto& l : node["procs"]) c += l.asString() + "\n";
     vh::writeFile(dir + "/cgroup.procs", c);
